@@ -108,6 +108,40 @@ def f(a):
     hi = hi + 1
     return lo, hi
 ''', [(1,), ('x',)], True),
+    ('nested-accumulate-with-locals', '''
+def f(rows, lo, k):
+    out = []
+    for y in range(lo, len(rows)):
+        row = rows[y]
+        if y == k:
+            continue
+        for x in range(len(row)):
+            if row[x] > 0:
+                out.append((y, x))
+    return out
+''', [([[1, 0], [0, 2], [3, 3]], 0, 1), ([[1]], 0, 5), ([], 0, 0)], True),
+    ('parallel-locals', '''
+def f(p, offs, h):
+    out = []
+    for dy, dx in offs:
+        y, x = (p[0] + dy, p[1] + dx)
+        if 0 <= y < h and 0 <= x < h:
+            out.append((y, x))
+    return out
+''', [((0, 0), [(-1, 0), (0, 1), (1, 0), (0, -1)], 2), ((1, 1), [(0, 1)], 2)], True),
+    ('rebound-in-later-loop', '''
+def f(n, offs):
+    cells = []
+    for y in range(n):
+        for x in range(n):
+            cells.append((y, x))
+    moved = []
+    for c in cells:
+        for d in offs:
+            y, x = (c[0] + d, c[1] - d)
+            moved.append((y, x))
+    return cells, moved
+''', [(2, [1, 2]), (0, [1])], True),
     # ---- side conditions: must not be rewritten
     ('break-in-loop', '''
 def f(xs):
@@ -118,6 +152,15 @@ def f(xs):
         out.append(x)
     return out
 ''', [([1, 2, -1, 3],), ([],)], False),
+    ('nested-local-with-call-used-twice', '''
+def f(rows, g):
+    out = []
+    for y in range(len(rows)):
+        v = g(y)
+        for x in range(len(rows[y])):
+            out.append((v, x))
+    return out
+''', [([[1, 2], [3]], lambda y: [y])], None),
     ('loop-var-used-after', '''
 def f(xs):
     out = []
